@@ -10,7 +10,40 @@ use proptest::strategy::BoxedStrategy;
 use std::collections::BTreeMap;
 
 fn strategy(tier: Tier) -> BoxedStrategy<Case> {
-    gen::case_strategy(GenOpts { dims: vec![1, 2], max_n: tier.pick(200, 600), big_n_weight: 1, garbage_pct: 100, masks: MaskMode::Mixed, max_offset_log2: 16, ..GenOpts::default() })
+    use proptest::prelude::*;
+    let base = gen::case_strategy(GenOpts { dims: vec![1, 2], max_n: tier.pick(200, 600), big_n_weight: 1, garbage_pct: 100, masks: MaskMode::Mixed, max_offset_log2: 16, ..GenOpts::default() });
+    // "arbitrary values" in the unused coordinates: a quarter of the cases also gets non-finite
+    // ones (NaN, +-inf) in some unused components of generators, anchor and width
+    (base, 0u32..4, any::<u64>())
+        .prop_map(|(mut c, kind, bits)| {
+            if kind == 0 {
+                const NF: [f64; 3] = [f64::NAN, f64::INFINITY, f64::NEG_INFINITY];
+                let d = c.d();
+                let mut x = bits | 1;
+                let mut next = || {
+                    x ^= x << 13;
+                    x ^= x >> 7;
+                    x ^= x << 17;
+                    x
+                };
+                for k in d..3 {
+                    if next() % 3 == 0 {
+                        c.anchor[k] = NF[(next() % 3) as usize];
+                    }
+                    if next() % 3 == 0 {
+                        c.width[k] = NF[(next() % 3) as usize];
+                    }
+                    for g in c.gens.iter_mut() {
+                        if next() % 2 == 0 {
+                            g[k] = NF[(next() % 3) as usize];
+                        }
+                    }
+                }
+                c.family.push_str("+nonfinite");
+            }
+            c
+        })
+        .boxed()
 }
 
 pub fn check(c: &Case, cs: &mut CaseStats) -> Result<(), String> {
@@ -20,6 +53,9 @@ pub fn check(c: &Case, cs: &mut CaseStats) -> Result<(), String> {
     }
     let n = c.n();
     let d = c.d();
+    if c.family.ends_with("+nonfinite") {
+        cs.label("nonfinite-unused-coordinates");
+    }
     let built = obs::build(c);
     if built.dimensionality() != d {
         return Err(format!("Voronoi::dimensionality() = {} for a {d}D tessellation", built.dimensionality()));
@@ -204,12 +240,12 @@ pub fn check(c: &Case, cs: &mut CaseStats) -> Result<(), String> {
 pub fn def() -> PropDef {
     PropDef {
         id: "C08",
-        rule: "cases: 1D and 2D inputs from all families x masks, periodic or not, n to 200 (quick) / 600 (thorough), the unused components of generators, anchor and width filled with finite garbage (0, -0.0, +-1e300, subnormals, f64::MAX, random); oracles: (a) metamorphic, bitwise: replacing the garbage by 0/0/1 leaves the canonical dump unchanged; (b) 1D closed form: cell = [midpoint to the left neighbour, midpoint to the right neighbour] (seam wrapped if periodic), two faces of area 1 with normals +-e_x at those positions; (c) 2D vs the 3D tessellation of the same generators at z = 0 in a slab of unit thickness: equal measures, centroids and in-plane faces; (d) unit normals with exactly zero unused components, dimensionality() echoes the input. non-trivial: garbage differs from the canonical values on a generator and on the box, n >= 2; distinct by case hash.",
+        rule: "cases: 1D and 2D inputs from all families x masks, periodic or not, n to 200 (quick) / 600 (thorough), the unused components of generators, anchor and width filled with garbage (0, -0.0, +-1e300, subnormals, f64::MAX, random; in a quarter of the cases also NaN and +-inf); oracles: (a) metamorphic, bitwise: replacing the garbage by 0/0/1 leaves the canonical dump unchanged; (b) 1D closed form: cell = [midpoint to the left neighbour, midpoint to the right neighbour] (seam wrapped if periodic), two faces of area 1 with normals +-e_x at those positions; (c) 2D vs the 3D tessellation of the same generators at z = 0 in a slab of unit thickness: equal measures, centroids and in-plane faces; (d) unit normals with exactly zero unused components, dimensionality() echoes the input. non-trivial: garbage differs from the canonical values on a generator and on the box, n >= 2; distinct by case hash.",
         strategy,
         check,
         cases: |t| t.pick(6000, 300_000),
         profiles: &["release"],
-        required: &["dim1", "dim2", "garbage-in-generators", "garbage-in-box", "periodic", "reflective", "slab-compared", "cells_1d_closed_form"],
+        required: &["dim1", "dim2", "garbage-in-generators", "garbage-in-box", "nonfinite-unused-coordinates", "periodic", "reflective", "slab-compared", "cells_1d_closed_form"],
         fixed: None,
         assumptions: &["valid input as in C01 (garbage is finite)", "tolerances from the library's own conditioning for the slab comparison"],
     }
